@@ -4,9 +4,9 @@
 
 /// Harness switch: when set, `update` is the cheap mixer below.  A plain flag (not a Kani stub) so that a solver
 /// counterexample replays natively with the same checksum function the solver saw.
-static mut CHEAP: bool = false;
+static mut CHEAP: u32 = 0x5EED_00C1; // 1 = cheap mixer on (not a bool with value false: Kani may merge such a static with a constant)
 pub fn verif_set_cheap(on: bool) {
-    unsafe { CHEAP = on; }
+    unsafe { CHEAP = on as u32; }
 }
 
 #[derive(Clone, Debug)]
@@ -30,7 +30,7 @@ impl Hasher {
     }
 
     pub fn update(&mut self, buf: &[u8]) {
-        if unsafe { CHEAP } {
+        if unsafe { CHEAP } == 1 {
             return self.update_cheap(buf);
         }
         let mut crc = self.state;
